@@ -76,7 +76,10 @@ def pool_for(name):
         return ["tag", "commit", "x", "", "TAG", "Commit", "cOMMIT", "Tag"]
     if name in ("pre-release-label", "bump-pre-release-label"):
         return ["alpha", "beta", "rc", "a", "b", "c", "pre", "preview", "ALPHA", "Beta", "RC", "", "é", "gamma", "{{ 'rc' }}", "{{"]
-    if name in ("bumped-branch", "bumped-commit-hash", "output-prefix"):
+    if name == "bumped-branch":
+        return TEXTS + ["release/20251001120000", "feature/4294967296/login", "hotfix/99999999999999999999999", "release/18446744073709551616", "release/4294967296", "x/+5", "release/-1",
+                        "release/00000000000000000000001", "release/1e9", "develop/99999999999"]
+    if name in ("bumped-commit-hash", "output-prefix"):
         return TEXTS
     return NUMS
 
@@ -178,6 +181,11 @@ def run_check(tier, seed):
     for _ in range(2500 if q else 80000):
         sub = rng.choice(["version", "version", "flow", "flow", "render", "check"])
         jobs.append((fuzz_argv(rng, sub, *tables[sub]), fuzz_stdin(rng, texts)))
+    # systematically: every text of the pools as the branch name, through flow and version, from the command line and from a stdin object
+    for t in sorted(set(pool_for("bumped-branch"))):
+        jobs.append((["flow", "--source=none", "--tag-version=1.2.3", "--bumped-branch=" + t], None))
+        jobs.append((["flow", "--source=none", "--tag-version=1.2.3rc4", "--distance=2", "--output-format=pep440", "--bumped-branch=" + t], None))
+        jobs.append((["version", "--source=none", "--tag-version=1.2.3", "--schema=standard-context", "--distance=1", "--bumped-branch=" + t], None))
     jobs = [([x for x in a if x not in ("-v", "--verbose", "-vvvv")], i) for a, i in jobs]
     res = run_procs(jobs)
     vjobs = [(a[:1] + ["-v"] + a[1:], i) for a, i in jobs]
@@ -346,7 +354,7 @@ def run_check(tier, seed):
         cmds = [["version"], ["version", "--output-format=pep440"], ["flow"], ["version", "--output-format=zerv"], ["flow", "--output-format=pep440", "--schema=standard-base"],
                 ["version", "--schema=calver", "-v"]]
         names = list(repos) if not q else ["ahead", "tagged_dirty", "no_tags", "annotated", "feature_branch", "empty_repo", "not_a_repo", "multi_tags", "release_branch",
-                                           "long_unicode_branch2", "long_unicode_branch3"]
+                                           "long_unicode_branch2", "long_unicode_branch3", "shallow_clone", "detached"]
         st = run.streams.setdefault("git_fault_injection", {"repos": len(names), "baseline_runs": 0, "fault_runs": 0, "git_calls_seen": 0, "clean_failures": 0, "tolerated": 0, "modes": gitfx.MODES})
         base_jobs = []
         for n in names:
@@ -365,6 +373,11 @@ def run_check(tier, seed):
             if d:
                 run.add_violation("oracle", {"stream": "git_fault_injection", "what": d, "described": desc, "rc": p.returncode, "stdout": p.stdout.decode("utf-8", "replace")[:300],
                                              "stderr": p.stderr.decode("utf-8", "replace")[-400:]}, True)
+            if d is None and p.returncode == 0 and "--output-format=zerv" not in c:
+                t0_ = p.stdout.decode("utf-8", "replace")
+                if not t0_.endswith("\n") or "\n" in t0_[:-1] or LOGLINE.search(t0_):
+                    run.add_violation("oracle", {"stream": "git_fault_injection", "what": "success, but stdout is not exactly the one-line result (warnings and logs belong on stderr)", "described": desc,
+                                                 "stdout": t0_[:400]}, True)
             # the -v twin of the undisturbed run: logging (which prints git's answers) may neither fail nor change stdout
             if "-v" not in c:
                 pv = subprocess.run([ZERV] + c + ["-v"], stdin=subprocess.DEVNULL, stdout=subprocess.PIPE, stderr=subprocess.PIPE, env=dict(BASE_ENV, RUST_LOG=rng.choice(["", "debug", "trace"])), cwd=repos[n])
